@@ -51,7 +51,11 @@ def build(tier):
         if mode == "outdir":      # split: with / without a -s file x command-line flag present / absent
             for us in (False, True):
                 for cs in (False, True):
-                    obs.append(ob(sec, opt, mode, L, t, dict(use_s=us, c_set=cs)))
+                    if us and cs:         # the largest quarter is split once more (the -s file sets the directory or not)
+                        for ss in (False, True):
+                            obs.append(ob(sec, opt, mode, L, t, dict(use_s=us, c_set=cs, s_set=ss)))
+                    else:
+                        obs.append(ob(sec, opt, mode, L, t, dict(use_s=us, c_set=cs)))
         else:
             obs.append(ob(sec, opt, mode, L, t))
     # options do not disturb each other: every command-line flag next to each of the other command-line flags
@@ -60,11 +64,13 @@ def build(tier):
              (("rst", "file_extensions_in_titles", "bool"), ("-p", "P", "-r")), (("input", "auto_exclude_directories_without_cmake", "bool"), ("-r", "-e", "pat"))]
     for ((sec, opt, mode), extra) in pairs:
         obs.append(ob(sec, opt, mode, L, t, extra=extra))
-    obs.append(ob("output", "directory", "outdir", L, t, dict(use_s=True, c_set=True), extra=("-p", "P")))
+    for ss in (False, True):
+        obs.append(ob("output", "directory", "outdir", L, t, dict(use_s=True, c_set=True, s_set=ss), extra=("-p", "P")))
     # the long spellings of the five command-line options
     for (sec, opt, mode) in (("input", "recursive", "bool"), ("rst", "prefix", "str"), ("input", "exclude_filters", "excl")):
         obs.append(ob(sec, opt, mode, L, t, long=True))
-    obs.append(ob("output", "directory", "outdir", L, t, dict(use_s=True, c_set=True), long=True))
+    for ss in (False, True):
+        obs.append(ob("output", "directory", "outdir", L, t, dict(use_s=True, c_set=True, s_set=ss), long=True))
     # C16.b a value of the wrong type is rejected, in either file
     for (sec, opt) in (("input", "recursive"), ("input", "include_undocumented_function"), ("rst", "file_extensions_in_titles"),
                        ("input", "kwargs_doc_trigger_string"), ("rst", "module_path_separator")):
